@@ -25,6 +25,11 @@ func (o *FaultObj) Two(a, b int) int { return a + b }
 
 type FaultVal struct{ F int64 }
 
+// FaultLevel is a named integer type: a value of kind int64 but another type cannot be Set into it.
+type FaultLevel int64
+
+type FaultOther struct{ G int64 }
+
 func faultApis() map[string]interface{} {
 	var nilP *FaultInner
 	var nilM map[string]int64
@@ -40,6 +45,10 @@ func faultApis() map[string]interface{} {
 		"two":   func(a, b int) int { return a + b },
 		"boom":  func() int64 { panic("injected function panics on purpose") },
 		"Str":   "text",
+		"PLevel": new(FaultLevel),
+		"PVal":   &FaultVal{F: 2},
+		"Other":  FaultOther{G: 1},
+		"LevelHolder": &struct{ L FaultLevel }{},
 	}
 }
 
@@ -91,6 +100,10 @@ var faultKinds = []faultKind{
 	{name: "write-wrong-element-type", stmt: "FM[\"a\"] = \"s\""},
 	{name: "write-through-nil-pointer", stmt: "NilP.X = 1"},
 	{name: "compound-missing-target", stmt: "nosuchtarget += 1"},
+	// same kind, different type: reflect.Set panics inside the store
+	{name: "write-named-type-scalar", stmt: "PLevel = 3"},
+	{name: "write-struct-of-other-type", stmt: "PVal = Other"},
+	{name: "write-string-into-number-pointer", stmt: "PLevel = \"x\""},
 	// reading an unexported field through reflection works; only handing it out as the rule's result cannot
 	{name: "unexported-field", num: "Obj.hidden", only: []string{"return-expression"}},
 	{name: "break-outside-loop", stmt: "zq = 1 break", only: []string{"statement"}},
